@@ -387,7 +387,7 @@ func (gw *GlobalWindow) findOutputSpec(aggType aggregator.AggregateType, inputFi
 }
 
 func normalizeField(f string) string {
-	f = strings.TrimSpace(strings.ToLower(f))
+	f = strings.TrimSpace(f) // column names are case-sensitive: sum(V) is not sum(v)
 	if f == "" {
 		return "*"
 	}
